@@ -95,7 +95,7 @@ func c17RotMenu(w *wworld.World) []string {
 	return ops
 }
 
-func c17Specs(quick bool) []*wSpec {
+func c17OwnSpecs(quick bool) []*wSpec {
 	two := wworld.Config{FeeA: 100, Wallets: []wworld.WalletCfg{{Default: "a"}, {Default: "a"}}}
 	swapCfg := wworld.Config{FeeA: 100, FeeB: 0, TwoMints: true, Wallets: []wworld.WalletCfg{{Default: "a"}}}
 	swapMenu := func(w *wworld.World) []string {
@@ -171,4 +171,8 @@ func init() {
 			return wReplay("C17", c17All, p)
 		},
 	})
+}
+
+func c17Specs(quick bool) []*wSpec {
+	return append(c17OwnSpecs(quick), wUnionSpec("C17", quick, nil, nil, false))
 }
